@@ -382,6 +382,14 @@ class Func:
     def returns(self):
         return [(b, i, el) for b, i, el in self.elements() if el["k"] == "ret"]
 
+    def exits(self):
+        """program points at which the function's final state can be observed: for value-returning
+        functions the explicit return elements; for void functions the (empty) exit block itself, which
+        every `return;` and every fall-off-the-end edge flows into: (exit_block, 0, None)"""
+        if self.ret != "void":
+            return list(self.returns())
+        return [(self.blocks[self.exit], 0, None)]
+
     def param_index(self, name):
         for i, p in enumerate(self.params):
             if p["n"] == name:
